@@ -40,6 +40,7 @@ fn main() {
             for line in stdin.lock().lines() {
                 let line = line.unwrap();
                 writeln!(out, "{}", imp::handle(&t, &line)).unwrap();
+                out.flush().unwrap(); // one answer per request on disk: if a request never returns, the check knows which
             }
             out.flush().unwrap();
         }
@@ -53,6 +54,7 @@ fn main() {
             for line in stdin.lock().lines() {
                 let line = line.unwrap();
                 writeln!(out, "{}", orc.check(&line)).unwrap();
+                out.flush().unwrap();
             }
             out.flush().unwrap();
         }
